@@ -75,7 +75,7 @@ func (st *state) dispatch(toks []string) (string, string) {
 	switch toks[0] {
 	case "ck", "dk", "ev":
 		return codecOp(toks), ""
-	case "open", "inst", "close", "reopen", "gc", "flush", "sleep", "dump", "ldump", "failset", "api":
+	case "open", "inst", "close", "reopen", "gc", "flush", "sleep", "dump", "ldump", "failset", "api", "attach", "killat", "storecalls":
 		return st.apiOp(toks)
 	case "frag":
 		return fragOp(toks), ""
